@@ -534,16 +534,28 @@ impl Wal {
 
         let offset = file.metadata()?.len();
         file.seek(SeekFrom::End(0))?;
-        #[cfg(luqing_studio_nervusdb_verif)]
-        vh::io(vh::IoKind::Write, &self.path, None, offset, &len.to_le_bytes())?;
-        file.write_all(&len.to_le_bytes())?;
-        #[cfg(luqing_studio_nervusdb_verif)]
-        vh::io(vh::IoKind::Write, &self.path, None, offset + 4, &crc.to_le_bytes())?;
-        file.write_all(&crc.to_le_bytes())?;
-        #[cfg(luqing_studio_nervusdb_verif)]
-        vh::io(vh::IoKind::Write, &self.path, None, offset + 8, &body)?;
-        file.write_all(&body)?;
-        file.flush()?;
+        let path = &self.path;
+        let mut write_record = || -> Result<()> {
+            #[cfg(luqing_studio_nervusdb_verif)]
+            vh::io(vh::IoKind::Write, path, None, offset, &len.to_le_bytes())?;
+            file.write_all(&len.to_le_bytes())?;
+            #[cfg(luqing_studio_nervusdb_verif)]
+            vh::io(vh::IoKind::Write, path, None, offset + 4, &crc.to_le_bytes())?;
+            file.write_all(&crc.to_le_bytes())?;
+            #[cfg(luqing_studio_nervusdb_verif)]
+            vh::io(vh::IoKind::Write, path, None, offset + 8, &body)?;
+            file.write_all(&body)?;
+            file.flush()?;
+            Ok(())
+        };
+        if let Err(e) = write_record() {
+            // Appends go to the end of the file: a partial record left behind would make
+            // every later record unreadable. Best effort: cut it off again.
+            #[cfg(luqing_studio_nervusdb_verif)]
+            let _ = vh::io(vh::IoKind::SetLen, path, None, offset, &[]);
+            let _ = file.set_len(offset);
+            return Err(e);
+        }
         Ok(offset)
     }
 
